@@ -128,6 +128,7 @@ void ep_norm_sim(ep_t *r, const ep_t *t, int n) {
 		for (i = 0; i < n; i++) {
 			fp_copy(r[i]->x, t[i]->x);
 			fp_copy(r[i]->y, t[i]->y);
+			r[i]->coord = t[i]->coord;
 			if (!ep_is_infty(t[i])) {
 				fp_copy(r[i]->z, a[i]);
 			}
